@@ -27,8 +27,10 @@ from typing import Final
 import numpy
 from docstring_inheritance import GoogleDocstringInheritanceMeta
 from numpy import add as _add
+from numpy import atleast_1d
 from numpy import atleast_2d
 from numpy import ndarray
+from numpy import newaxis
 from numpy import subtract as _subtract
 from numpy import tile
 
@@ -353,6 +355,10 @@ class _MultiplicationFunctionMaker(_OperationFunctionMaker):
         first_func = self._first_operand.func(input_value)
         second_func = self._second_operand.func(input_value)
         second_jac = self._second_operand._jac(input_value)
+        if isinstance(first_jac, ndarray) and first_jac.ndim == 2:
+            # Scale the rows of the Jacobians, i.e. one factor per output component.
+            first_func = atleast_1d(first_func)[:, newaxis]
+            second_func = atleast_1d(second_func)[:, newaxis]
 
         if self._operator == numpy.multiply:
             return first_jac * second_func + second_jac * first_func
